@@ -2155,7 +2155,15 @@ func (a *Authenticator) handleClientAuthentication(ctx context.Context, negotiat
 	// Check if it's "YES" or if the negotiated auth method is not NONE
 
 	if !authRequired {
+		// The server declined authentication. That is only acceptable if this client's
+		// own policy does not require it: the server's answer cannot waive a REQUIRED.
+		if a.config.Authentication == SecurityRequired {
+			return fmt.Errorf("server declined authentication (Authentication=%q) but client policy requires it",
+				negotiation.ServerConfig.Authentication)
+		}
 		slog.Debug("🔐 CLIENT: No authentication required", "destination", "cedar")
+		// Report what actually happened: nothing ran.
+		negotiation.Authentication = false
 		return nil
 	}
 
@@ -2271,6 +2279,7 @@ func (a *Authenticator) handleClientAuthentication(ctx context.Context, negotiat
 
 		slog.Debug(fmt.Sprintf("✅ CLIENT: Authentication successful with method: %s", selectedMethod), "destination", "cedar")
 		negotiation.NegotiatedAuth = selectedMethod
+		negotiation.Authentication = true
 
 		// After successful authentication, perform key exchange as in HTCondor's Authentication::exchangeKey
 		// For modern HTCondor with AESGCM crypto, the server always sends an empty key
